@@ -27,7 +27,7 @@ type countingConn struct {
 	mu     *sync.Mutex
 	counts map[int]int // publish index -> packets
 	last   *time.Time
-	rgate  *gate // back-pressure: reads wait while the gate is shut
+	rgate  *gate         // back-pressure: reads wait while the gate is shut
 	busy   *atomic.Int32 // writes entered and not yet returned (all links of the mesh)
 }
 
